@@ -1425,24 +1425,34 @@ class GroupBy:
 
         # TODO: allow a target vector
         results = parallel_map(func, arg_list)
+        # func is only called for the groups that have (selected) rows
+        non_empty = np.array([len(arr) > 0 for arr in array_splits[0]], dtype=bool)
+        n_results = int(non_empty.sum())
         results_per_value = [
-            results[i * self.ngroups : (i + 1) * self.ngroups]
+            results[i * n_results : (i + 1) * n_results]
             for i in range(len(value_list))
         ]
         result_col_names = self._col_names_from_value_names(value_names)
 
-        group_index = self._result_index[self._labels_argsort]
-        if mask is not None:
-            group_index = group_index[[len(arr) > 0 for arr in array_splits[0]]]
-        else:
-            group_index = group_index[group_counts > 0]
+        group_index = self._result_index[self._labels_argsort][non_empty]
 
         if np.ndim(results_per_value[0][0]) == 0:
             # safe to assume it's a scalar value function
             arrays = map(np.array, results_per_value)
             if transform:
                 self._unify_group_key_chunks(keep_chunked=False)
-                arrays = [arr[self.group_ikey] for arr in arrays]
+                # the results come in sorted-label order, one per non-empty group: scatter
+                # them to the group codes; the extra trailing slot (NaN) serves null keys (-1)
+                codes_with_result = np.arange(self.ngroups)[self._labels_argsort][
+                    non_empty
+                ]
+
+                def broadcast(arr):
+                    per_code = np.full(self.ngroups + 1, np.nan)
+                    per_code[codes_with_result] = arr
+                    return per_code[self.group_ikey]
+
+                arrays = [broadcast(arr) for arr in arrays]
                 index = (
                     common_index
                     if common_index is not None
